@@ -993,8 +993,19 @@ def shard_rdata_wire_faults(task, col):
                             go(data[:i] + bytes([a]) + data[i + 1:j] + bytes([b]) + data[j + 1:], "byte2")
 
 
+# characters that str.isdigit() accepts but int() does not (superscript two), that both accept although
+# they are not ASCII (Arabic-Indic three, fullwidth one), next to the escape character
+NAME_TEXT_ALPHA_DIGITS = ["\\", "\u00b2", "\u0663", "\uff11", "1", "a", "."]
+
+
 def shard_name_text(task, col):
     _, first, maxlen, combos = task
+    if first == "unicode-digits":
+        for rest in strings_upto(NAME_TEXT_ALPHA_DIGITS, maxlen + 1):
+            text = "".join(rest)
+            for origin, codec in combos:
+                judge(col, {"e": "nt", "text": text, "origin": origin, "codec": codec}, "short", "unicode-digit-strings")
+        return
     for rest in strings_upto(NAME_TEXT_ALPHA, maxlen - 1):
         text = first + "".join(rest)
         for origin, codec in combos:
@@ -1253,6 +1264,7 @@ def run(ctx):
     if want("nt"):
         for first in NAME_TEXT_ALPHA:
             tasks.append(("nt", first, ntl, combos))
+        tasks.append(("nt", "unicode-digits", ntl, combos))
     ttl_len = ctx.pick(5, 6)
     bounds["ttl_text_maxlen"] = ttl_len
     if want("tt"):
@@ -1294,7 +1306,7 @@ def run(ctx):
     bounds["shards"] = len(tasks)
     bounds["wire_fault_alphabet"] = ["%02x" % v for v in WIRE_ALPHA] + ["b^1", "b+1"]
     bounds["alphabets"] = {"header_body": ["%02x" % v for v in BODY_ALPHA], "name_wire": ["%02x" % v for v in NAME_ALPHA],
-                           "rdata_wire": ["%02x" % v for v in RDATA_ALPHA], "name_text": NAME_TEXT_ALPHA,
+                           "rdata_wire": ["%02x" % v for v in RDATA_ALPHA], "name_text": NAME_TEXT_ALPHA, "name_text_unicode_digits": NAME_TEXT_ALPHA_DIGITS,
                            "ttl_text": TTL_ALPHA}
     bounds["header_flag_words"] = ["%04x" % f for f in HEADER_FLAGS]
     bounds["header_count_vectors"] = len(HEADER_COUNTS)
